@@ -179,6 +179,7 @@ func RunCheck(ctx *Ctx, prepare func(*Ctx) (*Prepared, error), level string) int
 		witnesses                                                 = map[string][]ReplayCase{} // package path -> cases
 		qTotal, qSat, qUnsat, qUnknown, qErr                      int
 		solverTime, solverMax                                     time.Duration
+		inconFuncs                                                []string
 		harnessesRun                                              int
 		loadErrors                                                = map[string][]string{}
 		initWarn                                                  = map[string]bool{}
@@ -244,6 +245,9 @@ func RunCheck(ctx *Ctx, prepare func(*Ctx) (*Prepared, error), level string) int
 			}
 			for k, v := range fr.InconReasons {
 				inconReasons[k] += v
+			}
+			if fr.Inconclusive > 0 {
+				inconFuncs = append(inconFuncs, fmt.Sprintf("%s (%d paths, %.0fs)", fr.Func, fr.Paths, fr.WallS))
 			}
 			for k, v := range fr.AssertIDs {
 				assertIDs[k] += v
@@ -510,6 +514,14 @@ func RunCheck(ctx *Ctx, prepare func(*Ctx) (*Prepared, error), level string) int
 		}
 		sort.Strings(ks)
 		fmt.Printf("INCONCLUSIVE property=%s %d obligations/paths not decided: %s\n", ctx.ID, incon, strings.Join(ks, "; "))
+		sort.Strings(inconFuncs)
+		for i, f := range inconFuncs {
+			if i == 12 {
+				fmt.Printf("  ... and %d more\n", len(inconFuncs)-i)
+				break
+			}
+			fmt.Printf("  not fully decided: %s\n", f)
+		}
 	}
 	if harnessesRun == 0 {
 		broken = true
